@@ -37,9 +37,13 @@
 (*    reshape (mini-language)         Rsh!Apply, MC_Reshape (exhaustive)    Trace_Utils (reshape; cases = TLC dump) *)
 (*  documented pipeline               Pipeline                              Trace_Pipeline                       *)
 (*                                                                         *)
-(* Not yet specified (growth backlog): get_mvdr_vector_merl,               *)
-(* biased_binary_mask, voiced_unvoiced_split_characteristic, BinaryGMM,    *)
-(* samplers, Dirichlet-prior weight variant,                               *)
+(*  growth (spec/Extras.tla, MC_Extras, Trace_Extras)                      *)
+(*    _estimate_mixture_weight_with_dirichlet_prior_concentration   Ext!DirichletWeight   Trace_Extras (dirichlet) *)
+(*    math.solve.stable_solve          Ext!StableSolveOK                    Trace_Extras (solve)                 *)
+(*    get_mvdr_vector_merl             Ext!MerlOK                           Trace_Extras (merl)                  *)
+(*                                                                         *)
+(* Not yet specified (growth backlog): biased_binary_mask,                 *)
+(* voiced_unvoiced_split_characteristic, BinaryGMM (k-means), samplers,    *)
 (* pb_bss.evaluation.wrapper (needs absent third-party packages).          *)
 (***************************************************************************)
 EXTENDS Integers, Sequences
@@ -58,6 +62,7 @@ Rsh    == INSTANCE Reshape
 Dens   == INSTANCE Density
 Pipe   == INSTANCE Pipeline
 ModelM == INSTANCE Model
+Ext    == INSTANCE Extras
 
 \* cross-module facts the properties rely on (checked by SANY for well-formedness; the instances check them)
 \* the optimal assignment is a permutation attaining the maximal score, hence never below the greedy one (C15)
